@@ -49,6 +49,7 @@ def parseValue : List String → Option Value
   | ["utf8", h] => (pUtf8 h).map .utf8
   | ["ident", h] => (pUtf8 h).map .identity
   | ["oct", h] => (unhex? h).map .octets
+  | ["octn", n, b] => n.toNat?.bind fun n => (pBytesN 1 b).map fun b => .octets (List.replicate n (b.getD 0 0))
   | ["uri", h] => (unhex? h).map .uri
   | _ => none
 
@@ -192,6 +193,25 @@ def step (s : DState) (line : String) : DState × String :=
     let m := s.ms.msg
     (s, encStr m.enc ++ " | " ++ hexOrDash (Spec.encode m.abs) ++ " | wf=" ++ bit (wfListB m.avps) ++ " cons=" ++
       bit (consListB m.avps && m.length == 20 + lenList m.avps) ++ " small=" ++ bit (decide (m.length < 16777216)))
+  | ["ench"] =>
+    let m := s.ms.msg
+    let sp := Spec.encode m.abs
+    (s, (match m.enc.err with
+          | none => "ok " ++ toString m.enc.bytes.length ++ " " ++ toString (fnv m.enc.bytes).toNat
+          | some _ => "err") ++ " | " ++ toString sp.length ++ " " ++ toString (fnv sp).toNat ++ " | rep=" ++
+      bit m.repB ++ " wf=" ++ bit (wfListB m.avps) ++ " cons=" ++
+      bit (consListB m.avps && m.length == 20 + lenList m.avps))
+  | "encw" :: k :: _ =>
+    match k.toNat? with
+    | some k =>
+      let m := s.ms.msg
+      let (ok, acc) := encTo m k
+      let sp := Spec.encode m.abs
+      (s, (if ok then "ok " ++ toString acc.length ++ " " ++ toString (fnv acc).toNat else "err") ++ " | " ++
+        toString sp.length ++ " " ++ toString (fnv sp).toNat ++ " | rep=" ++ bit m.repB ++ " total=" ++
+        toString m.enc.bytes.length ++ " cons=" ++ bit (consListB m.avps && m.length == 20 + lenList m.avps) ++
+        " wf=" ++ bit (wfListB m.avps))
+    | none => plain s "bad-op"
   | ["len"] =>
     let m := s.ms.msg
     (s, toString m.length ++ " | " ++ toString (Spec.encode m.abs).length ++ " | wf=" ++ bit (wfListB m.avps) ++
@@ -245,7 +265,13 @@ def step (s : DState) (line : String) : DState × String :=
     match parseOp toks with
     | some op =>
       let (ms, st) := s.ms.step s.cfg op
-      plain { s with ms := ms } (statusStr st)
+      -- for the by-name operations the oracle column names the definition the dictionary declares (C16)
+      let spec := match op with
+        | .addByName n | .avpName n =>
+          (match s.ms.dict.getByName n with | some d => "def:" ++ d.dump | none => "def:none") ++
+            " | n=" ++ toString (defsNamed s.ms.dict n).length
+        | _ => "- | -"
+      ({ s with ms := ms }, statusStr st ++ " | " ++ spec)
     | none => plain s "bad-op"
 
 partial def loop (h : IO.FS.Stream) (out : IO.FS.Stream) (s : DState) : IO Unit := do
